@@ -6,11 +6,16 @@
       1. the InternalKey order and strictly sorted lists
       2. one-step decomposition of [cstream] ([emit_dec], [cstream_cons])
       3. shape of the output: keys/seqnos, subsequence, sortedness      (results 4)
-      4. [cstream_top_view]                                             (result 2)
+      4. [cstream_top_view_noweak], [cstream_top_view_refuted_weak]     (result 2)
       5. [cstream_mvcc], [cstream_mvcc_tomb]                            (result 3)
       6. [cstream_filter_domain]                                        (result 5)
       7. accounting: [cstream_log_exact] and consequences               (result 6)
-      8. [merge_sorted_perm], [merge_sorted_sorted] *)
+      8. [merge_sorted_perm], [merge_sorted_sorted]
+      9. per-key locality, the single-delete discipline: [cstream_weak_top],
+         [cstream_weak_view_with_deeper], [cstream_old_resurrects]
+    The model is the stream after the repair of finding F3 (weak tombstone + value: only
+    the pair is dropped; [drain_key] stops at a weak tombstone unless evicting);
+    [cstream_old] is the shipped 3.1.9 behaviour. *)
 From LsmV Require Import Model.Entry Model.Stream Proofs.Newest.
 From Coq Require Import Permutation.
 Open Scope N_scope.
@@ -128,6 +133,25 @@ Module Examples.
     = ([V ka 999 [57]; V ka 998 [56]; V ka 997 [55]; T ka 996; T ka 995],
        [V ka 996 [54]; V ka 995 [53]; V ka 994 [52]; V kb 999 [98]]).
   Proof. vm_compute; reflexivity. Qed.
+  (* after the repair of F3: only the pair (W@3, V@2) is cancelled, W@1 stays *)
+  Example ex_weak_pair_only :
+    run_stream 1000 false no_filter [Wt ka 3; V ka 2 [2]; Wt ka 1] = ([Wt ka 1], [V ka 2 [2]]).
+  Proof. vm_compute; reflexivity. Qed.
+
+  (* drain_key stops at a weak tombstone unless evicting *)
+  Example ex_drain_stops_at_weak :
+    run_stream 1000 false no_filter [V ka 5 [5]; Wt ka 4; V ka 3 [3]] = ([V ka 5 [5]], [V ka 3 [3]])
+    /\ run_stream 1000 false no_filter [V ka 5 [5]; Wt ka 4] = ([V ka 5 [5]; Wt ka 4], [])
+    /\ run_stream 1000 true no_filter [V ka 5 [5]; Wt ka 4] = ([V ka 5 [5]], [Wt ka 4]).
+  Proof. vm_compute; auto. Qed.
+
+  (* end-to-end two-step history V0 W1 V2 W3: the flush of [V@2; W@1] keeps both; a later
+     merge with everything cancels completely; a merge without V@0 (deeper) keeps W@1 *)
+  Example ex_two_step :
+    fst (run_stream 1000 false no_filter [V ka 2 [2]; Wt ka 1]) = [V ka 2 [2]; Wt ka 1]
+    /\ fst (run_stream 1000 false no_filter [Wt ka 3; V ka 2 [2]; Wt ka 1; V ka 0 [0]]) = []
+    /\ fst (run_stream 1000 false no_filter [Wt ka 3; V ka 2 [2]; Wt ka 1]) = [Wt ka 1].
+  Proof. vm_compute; auto. Qed.
 End Examples.
 
 (** the conjunction asked for as [cstream_examples] *)
@@ -302,46 +326,51 @@ Proof. intros U I e1 e2 H1 H2. apply U; apply I; assumption. Qed.
 (** * 2. One-step decomposition of [cstream] *)
 
 (** what happens to a head that survived the filter, given the rest of the input:
-    (is it emitted?, drain state for the rest) *)
+    (is it emitted?, mode for the rest) *)
 Definition emit_dec (W : N) (evict : bool) (head : entry) (rest : list entry)
-  : bool * option key :=
+  : bool * dmode :=
   match rest with
-  | [] => (negb (is_tomb head && evict), None)
+  | [] => (negb (is_tomb head && evict), NoDrain)
   | peeked :: _ =>
-      if key_ltb (ukey head) (ukey peeked) then (negb (is_tomb head && evict), None)
+      if key_ltb (ukey head) (ukey peeked) then (negb (is_tomb head && evict), NoDrain)
       else if seq peeked <? W then
-        (negb ((is_strong_tomb head && evict) || (is_value peeked && is_weak_tomb head)),
-         Some (ukey head))
-      else (true, None)
+        if is_strong_tomb head && evict then (false, Drain (ukey head))
+        else if is_value peeked && is_weak_tomb head then (false, DropNext)
+        else (true, Drain (ukey head))
+      else (true, NoDrain)
   end.
 
 Definition olist (b : bool) (h : entry) : list entry := if b then [h] else [].
 
 Lemma cstream_cons W evict flt dr e rest :
   cstream W evict flt dr (e :: rest) =
-  if draining dr e then
-    let '(o, d) := cstream W evict flt dr rest in (o, e :: d)
+  if draining evict dr e then
+    let '(o, d) := cstream W evict flt (after_drop dr) rest in (o, e :: d)
   else match apply_filter flt e with
-       | (None, lg) => let '(o, d) := cstream W evict flt None rest in (o, lg ++ d)
+       | (None, lg) => let '(o, d) := cstream W evict flt NoDrain rest in (o, lg ++ d)
        | (Some head, lg) =>
            let '(o, d) := cstream W evict flt (snd (emit_dec W evict head rest)) rest in
            (olist (fst (emit_dec W evict head rest)) head ++ o, lg ++ d)
        end.
 Proof.
-  cbn [cstream]. destruct (draining dr e); [reflexivity|].
+  cbn [cstream]. destruct (draining evict dr e); [reflexivity|].
   destruct (apply_filter flt e) as [[head|] lg]; [|reflexivity].
   unfold emit_dec, olist. destruct rest as [|peeked rest'].
   - cbn [cstream snd fst].
     destruct (is_tomb head && evict); cbn [negb app]; rewrite ?app_nil_r; reflexivity.
   - destruct (key_ltb (ukey head) (ukey peeked)).
-    + cbn [fst snd]. destruct (cstream W evict flt None (peeked :: rest')) as [o d].
+    + cbn [fst snd]. destruct (cstream W evict flt NoDrain (peeked :: rest')) as [o d].
       destruct (is_tomb head && evict); reflexivity.
     + destruct (seq peeked <? W).
-      * cbn [fst snd].
-        destruct (cstream W evict flt (Some (ukey head)) (peeked :: rest')) as [o d].
-        destruct (is_strong_tomb head && evict); [reflexivity|].
-        destruct (is_value peeked && is_weak_tomb head); reflexivity.
-      * cbn [fst snd]. destruct (cstream W evict flt None (peeked :: rest')) as [o d].
+      * destruct (is_strong_tomb head && evict).
+        { cbn [fst snd].
+          destruct (cstream W evict flt (Drain (ukey head)) (peeked :: rest')) as [o d].
+          reflexivity. }
+        destruct (is_value peeked && is_weak_tomb head); cbn [fst snd].
+        { destruct (cstream W evict flt DropNext (peeked :: rest')) as [o d]. reflexivity. }
+        destruct (cstream W evict flt (Drain (ukey head)) (peeked :: rest')) as [o d].
+        reflexivity.
+      * cbn [fst snd]. destruct (cstream W evict flt NoDrain (peeked :: rest')) as [o d].
         reflexivity.
 Qed.
 
@@ -353,41 +382,41 @@ Proof. reflexivity. Qed.
 
 Lemma outs_cons W evict flt dr e rest :
   outs W evict flt dr (e :: rest) =
-  if draining dr e then outs W evict flt dr rest
+  if draining evict dr e then outs W evict flt (after_drop dr) rest
   else match fst (apply_filter flt e) with
-       | None => outs W evict flt None rest
+       | None => outs W evict flt NoDrain rest
        | Some head =>
            olist (fst (emit_dec W evict head rest)) head
            ++ outs W evict flt (snd (emit_dec W evict head rest)) rest
        end.
 Proof.
-  unfold outs. rewrite cstream_cons. destruct (draining dr e).
-  - destruct (cstream W evict flt dr rest); reflexivity.
+  unfold outs. rewrite cstream_cons. destruct (draining evict dr e).
+  - destruct (cstream W evict flt (after_drop dr) rest); reflexivity.
   - destruct (apply_filter flt e) as [[head|] lg]; cbn [fst].
     + destruct (cstream W evict flt (snd (emit_dec W evict head rest)) rest); reflexivity.
-    + destruct (cstream W evict flt None rest); reflexivity.
+    + destruct (cstream W evict flt NoDrain rest); reflexivity.
 Qed.
 
 Lemma logs_cons W evict flt dr e rest :
   logs W evict flt dr (e :: rest) =
-  if draining dr e then e :: logs W evict flt dr rest
+  if draining evict dr e then e :: logs W evict flt (after_drop dr) rest
   else match fst (apply_filter flt e) with
-       | None => snd (apply_filter flt e) ++ logs W evict flt None rest
+       | None => snd (apply_filter flt e) ++ logs W evict flt NoDrain rest
        | Some head =>
            snd (apply_filter flt e)
            ++ logs W evict flt (snd (emit_dec W evict head rest)) rest
        end.
 Proof.
-  unfold logs. rewrite cstream_cons. destruct (draining dr e).
-  - destruct (cstream W evict flt dr rest); reflexivity.
+  unfold logs. rewrite cstream_cons. destruct (draining evict dr e).
+  - destruct (cstream W evict flt (after_drop dr) rest); reflexivity.
   - destruct (apply_filter flt e) as [[head|] lg]; cbn [fst snd].
     + destruct (cstream W evict flt (snd (emit_dec W evict head rest)) rest); reflexivity.
-    + destruct (cstream W evict flt None rest); reflexivity.
+    + destruct (cstream W evict flt NoDrain rest); reflexivity.
 Qed.
 
 Lemma run_stream_outs W evict flt l out log :
   run_stream W evict flt l = (out, log) ->
-  out = outs W evict flt None l /\ log = logs W evict flt None l.
+  out = outs W evict flt NoDrain l /\ log = logs W evict flt NoDrain l.
 Proof. unfold run_stream, outs, logs. intros ->. auto. Qed.
 
 (** facts about the filter step *)
@@ -423,71 +452,102 @@ Proof.
   - right; left. auto.
 Qed.
 
-(** invariants on the drain state *)
-Definition dr_ok (dr : option key) (l : list entry) : Prop :=
-  forall k, dr = Some k -> forall x, In x l -> key_le k (ukey x).
-Definition drW (W : N) (dr : option key) (l : list entry) : Prop :=
-  forall k, dr = Some k -> forall x, In x l -> ukey x = k -> seq x < W.
+(** invariants on the mode *)
+Definition dr_ok (dr : dmode) (l : list entry) : Prop :=
+  match dr with
+  | Drain k => forall x, In x l -> key_le k (ukey x)
+  | _ => True
+  end.
+Definition drW (W : N) (dr : dmode) (l : list entry) : Prop :=
+  match dr with
+  | Drain k => forall x, In x l -> ukey x = k -> seq x < W
+  | DropNext => match l with p :: _ => seq p < W | [] => True end
+  | NoDrain => True
+  end.
 
-Lemma dr_ok_none l : dr_ok None l.
-Proof. intros k H; discriminate. Qed.
-Lemma drW_none W l : drW W None l.
-Proof. intros k H; discriminate. Qed.
-Lemma dr_ok_tail dr e l : dr_ok dr (e :: l) -> dr_ok dr l.
-Proof. intros H k E x HI. apply (H k E). now right. Qed.
-Lemma drW_tail W dr e l : drW W dr (e :: l) -> drW W dr l.
-Proof. intros H k E x HI. apply (H k E). now right. Qed.
+Lemma dr_ok_tail dr e l : dr_ok dr (e :: l) -> dr_ok (after_drop dr) l.
+Proof. destruct dr; cbn; auto. Qed.
+Lemma drW_tail W dr e l : drW W dr (e :: l) -> drW W (after_drop dr) l.
+Proof. destruct dr; cbn; auto. Qed.
+
+Lemma draining_key evict k e : draining evict (Drain k) e = true -> ukey e = k.
+Proof. cbn [draining]. intros H. apply andb_true_iff in H. destruct H as [H _]. now key_prop. Qed.
 
 Lemma emit_dec_dr W evict h rest :
-  snd (emit_dec W evict h rest) = None \/ snd (emit_dec W evict h rest) = Some (ukey h).
+  snd (emit_dec W evict h rest) = NoDrain \/ snd (emit_dec W evict h rest) = Drain (ukey h) \/
+  snd (emit_dec W evict h rest) = DropNext.
 Proof.
   unfold emit_dec. destruct rest as [|p r]; [auto|].
-  destruct (key_ltb (ukey h) (ukey p)); [auto|]. destruct (seq p <? W); auto.
+  destruct (key_ltb (ukey h) (ukey p)); [auto|]. destruct (seq p <? W); [|auto].
+  destruct (is_strong_tomb h && evict); [auto|].
+  destruct (is_value p && is_weak_tomb h); auto.
+Qed.
+
+Lemma ssorted_peek_same_key e p r h :
+  ssorted (e :: p :: r) = true -> ukey h = ukey e -> key_ltb (ukey h) (ukey p) = false ->
+  ukey p = ukey e.
+Proof.
+  intros HS Ek KL. key_prop. apply key_le_antisym; [congruence|].
+  eapply ssorted_key_le; eauto. right; now left.
 Qed.
 
 Lemma emit_dec_inv W evict e h rest :
   ssorted (e :: rest) = true -> ukey h = ukey e ->
-  dr_ok (snd (emit_dec W evict h rest)) rest /\ drW W (snd (emit_dec W evict h rest)) rest.
+  dr_ok (snd (emit_dec W evict h rest)) rest /\ drW W (snd (emit_dec W evict h rest)) rest /\
+  (snd (emit_dec W evict h rest) = DropNext ->
+   is_weak_tomb h = true /\
+   exists p r, rest = p :: r /\ ukey p = ukey e /\ is_value p = true /\ seq p < W).
 Proof.
-  intros HS Ek. split.
-  - destruct (emit_dec_dr W evict h rest) as [-> | ->]; [apply dr_ok_none|].
-    intros k E x HI. injection E as E. rewrite <- E, Ek.
-    eapply ssorted_key_le; eauto. now right.
-  - unfold emit_dec. destruct rest as [|p r]; [apply drW_none|].
-    destruct (key_ltb (ukey h) (ukey p)); [apply drW_none|].
-    destruct (seq p <? W) eqn:C; [|apply drW_none]. cbn [snd].
-    intros k E x HI Ex. injection E as E. rewrite <- E in Ex. clear E k. apply N.ltb_lt in C.
-    destruct HI as [->|HI]; [exact C|].
-    pose proof (ssorted_tail _ _ HS) as HS'.
-    assert (ukey p = ukey e) as Ep.
-    { apply key_le_antisym.
-      - rewrite <- Ek, <- Ex. eapply ssorted_key_le; eauto. now right.
-      - eapply ssorted_key_le; eauto. right; now left. }
-    assert (seq x < seq p); [|lia].
-    eapply ssorted_same_key_seq; eauto. congruence.
+  intros HS Ek. unfold emit_dec. destruct rest as [|p r].
+  { cbn. repeat split; auto; discriminate. }
+  destruct (key_ltb (ukey h) (ukey p)) eqn:KL.
+  { cbn. repeat split; auto; discriminate. }
+  destruct (seq p <? W) eqn:C.
+  2:{ cbn. repeat split; auto; discriminate. }
+  apply N.ltb_lt in C.
+  pose proof (ssorted_peek_same_key _ _ _ _ HS Ek KL) as Ep.
+  assert (dr_ok (Drain (ukey h)) (p :: r) /\ drW W (Drain (ukey h)) (p :: r)) as [HD1 HD2].
+  { split.
+    - intros x HI. rewrite Ek. eapply ssorted_key_le; eauto. now right.
+    - intros x HI Ex. destruct HI as [->|HI]; [exact C|].
+      assert (seq x < seq p); [|lia].
+      eapply ssorted_same_key_seq; [eapply ssorted_tail; eauto | exact HI | congruence]. }
+  destruct (is_strong_tomb h && evict).
+  { cbn [snd]. repeat split; auto; discriminate. }
+  destruct (is_value p && is_weak_tomb h) eqn:WP; cbn [snd].
+  - apply andb_true_iff in WP. destruct WP as [WP1 WP2].
+    split; [exact I|]. split; [exact C|]. intros _. split; [exact WP2|].
+    exists p, r. auto.
+  - repeat split; auto; discriminate.
 Qed.
 
-(** a head that is not emitted is a tombstone and nothing of its key follows in the output *)
+(** a head that is not emitted is a tombstone; either a whole-key drain follows (only
+    with [evict]), or it was the last version of its key, or it is the weak-pair case *)
 Lemma emit_dec_false W evict e h rest :
   ssorted (e :: rest) = true -> ukey h = ukey e ->
   fst (emit_dec W evict h rest) = false ->
   is_tomb h = true /\
-  (snd (emit_dec W evict h rest) = Some (ukey h) \/
-   (forall x, In x rest -> key_lt (ukey h) (ukey x))).
+  ((snd (emit_dec W evict h rest) = Drain (ukey h) /\ evict = true) \/
+   (forall x, In x rest -> key_lt (ukey h) (ukey x)) \/
+   (snd (emit_dec W evict h rest) = DropNext /\ is_weak_tomb h = true)).
 Proof.
   intros HS Ek. unfold emit_dec. destruct rest as [|p r].
   - cbn [fst snd]. intros H. apply negb_false_iff, andb_true_iff in H. destruct H as [H _].
-    split; [exact H|]. right. intros x [].
+    split; [exact H|]. right; left. intros x [].
   - destruct (key_ltb (ukey h) (ukey p)) eqn:KL.
     + cbn [fst snd]. intros H. apply negb_false_iff, andb_true_iff in H. destruct H as [H _].
-      split; [exact H|]. right. intros x HI. key_prop.
+      split; [exact H|]. right; left. intros x HI. key_prop.
       eapply key_lt_le_trans; [exact KL|].
       eapply ssorted_key_le; [eapply ssorted_tail; eauto | exact HI].
     + destruct (seq p <? W); cbn [fst snd]; [|discriminate].
-      intros H. apply negb_false_iff, orb_true_iff in H. split; [|now left].
-      unfold is_tomb, is_strong_tomb, is_weak_tomb in *.
-      destruct H as [H|H]; apply andb_true_iff in H; destruct H as [H1 H2];
-        destruct (ty h); try discriminate; reflexivity.
+      destruct (is_strong_tomb h && evict) eqn:SE.
+      * cbn [fst snd]. intros _. apply andb_true_iff in SE. destruct SE as [SE1 SE2].
+        split; [|left; auto].
+        unfold is_tomb, is_strong_tomb in *. destruct (ty h); try discriminate; reflexivity.
+      * destruct (is_value p && is_weak_tomb h) eqn:WP; cbn [fst snd]; [|discriminate].
+        intros _. apply andb_true_iff in WP. destruct WP as [_ WP].
+        split; [|right; right; auto].
+        unfold is_tomb, is_weak_tomb in *. destruct (ty h); try discriminate; reflexivity.
 Qed.
 
 (** a non-tombstone head is always emitted *)
@@ -498,7 +558,7 @@ Proof.
   destruct rest as [|p r].
   - intros ->. reflexivity.
   - destruct (key_ltb (ukey h) (ukey p)); [intros ->; reflexivity|].
-    destruct (seq p <? W); [|reflexivity]. cbn [fst].
+    destruct (seq p <? W); [|reflexivity].
     destruct (ty h); try discriminate; intros _; cbn; rewrite ?andb_false_r; reflexivity.
 Qed.
 
@@ -575,7 +635,7 @@ Qed.
 Lemma outs_subik W evict flt l : forall dr, subik (outs W evict flt dr l) l.
 Proof.
   induction l as [|e rest IH]; intros dr; [constructor|].
-  rewrite outs_cons. destruct (draining dr e).
+  rewrite outs_cons. destruct (draining evict dr e).
   - constructor. apply IH.
   - destruct (fst (apply_filter flt e)) as [h|] eqn:AF.
     + apply apply_filter_some in AF. destruct AF as [Ek Es].
@@ -588,7 +648,7 @@ Qed.
 Lemma outs_subseq W evict l : forall dr, subseq (outs W evict no_filter dr l) l.
 Proof.
   induction l as [|e rest IH]; intros dr; [constructor|].
-  rewrite outs_cons. destruct (draining dr e).
+  rewrite outs_cons. destruct (draining evict dr e).
   - constructor. apply IH.
   - rewrite apply_filter_no_filter. cbn [fst].
     unfold olist. destruct (fst (emit_dec W evict e rest)); cbn [app];
@@ -599,7 +659,7 @@ Qed.
 Lemma logs_subseq W evict flt l : forall dr, subseq (logs W evict flt dr l) l.
 Proof.
   induction l as [|e rest IH]; intros dr; [constructor|].
-  rewrite logs_cons. destruct (draining dr e).
+  rewrite logs_cons. destruct (draining evict dr e).
   - apply subseq_keep. apply IH.
   - destruct (apply_filter_cases flt e) as [AF|[(_ & _ & AF)|(_ & t & v & _ & AF)]];
       rewrite AF; cbn [fst snd app];
@@ -632,9 +692,9 @@ Theorem cstream_replace_keeps_seq W evict flt l out log :
                           h = mkE (ukey e) (seq e) t v.
 Proof.
   intros HR h HI. apply run_stream_outs in HR. destruct HR as [-> _]. clear log.
-  revert HI. generalize (@None key) as dr. induction l as [|e rest IH]; intros dr HI.
+  revert HI. generalize NoDrain as dr. induction l as [|e rest IH]; intros dr HI.
   - contradiction.
-  - rewrite outs_cons in HI. destruct (draining dr e).
+  - rewrite outs_cons in HI. destruct (draining evict dr e).
     + destruct (IH _ HI) as [A|(e0 & t & v & A & B)]; [left; now right|].
       right. exists e0, t, v. split; [now right | exact B].
     + assert (forall dr', In h (outs W evict flt dr' rest) ->
@@ -678,7 +738,7 @@ Example cstream_out_sorted_ex :
   = [Examples.V Examples.ka 999 [57]; Examples.T Examples.ka 996].
 Proof. vm_compute. auto. Qed.
 
-(** * 4. A snapshot above all versions of a key reads the same value (result 2) *)
+(** * 4. A snapshot above all versions of a key (result 2) *)
 
 Lemma newest_cons_nomatch k S h o : matches k S h = false -> newest k S (h :: o) = newest k S o.
 Proof. intros M. cbn [newest]. rewrite M. reflexivity. Qed.
@@ -727,48 +787,69 @@ Proof.
   - apply subik_skip; auto.
 Qed.
 
-(** while draining [k] nothing of key [k] is emitted *)
-Lemma drain_no_key W evict flt k l :
-  ssorted l = true -> dr_ok (Some k) l ->
-  forall h, In h (outs W evict flt (Some k) l) -> ukey h <> k.
+Lemma filter_all_in_tail flt e l x : In x (filter_all flt l) -> In x (filter_all flt (e :: l)).
+Proof.
+  intros HI. rewrite filter_all_cons. destruct (fst (apply_filter flt e)); [now right | exact HI].
+Qed.
+
+(** during a whole-key drain with [evict] nothing of key [k] is emitted
+    (without [evict] the drain stops at a weak tombstone, which becomes a head) *)
+Lemma drain_no_key W flt k l :
+  ssorted l = true -> dr_ok (Drain k) l ->
+  forall h, In h (outs W true flt (Drain k) l) -> ukey h <> k.
 Proof.
   induction l as [|e rest IH]; intros HS OK h HI; [contradiction|].
-  destruct (draining (Some k) e) eqn:D.
-  - rewrite outs_cons, D in HI. apply IH; auto.
+  destruct (draining true (Drain k) e) eqn:D.
+  - rewrite outs_cons, D in HI. cbn [after_drop] in HI. apply IH; auto.
     + eapply ssorted_tail; eauto.
-    + eapply dr_ok_tail; eauto.
-  - cbn [draining] in D. key_prop.
-    destruct (subik_in _ _ _ (outs_subik W evict flt (e :: rest) (Some k)) HI)
+    + intros x Hx. apply OK. now right.
+  - cbn [draining orb] in D. rewrite andb_true_r in D. key_prop.
+    destruct (subik_in _ _ _ (outs_subik W true flt (e :: rest) (Drain k)) HI)
       as (x & XI & Xk & _).
     assert (key_lt k (ukey x)) as L.
     { eapply key_lt_le_trans; [|eapply ssorted_key_le; eauto].
-      pose proof (OK k eq_refl e (or_introl eq_refl)) as LE.
+      pose proof (OK e (or_introl eq_refl)) as LE.
       apply key_le_lteq in LE. destruct LE as [LE|LE]; [exact LE | congruence]. }
     intros E. rewrite Xk, E in *. now apply key_lt_irrefl in L.
 Qed.
 
+(** the mode does not concern key [k] *)
+Definition dr_nok (k : key) (dr : dmode) (l : list entry) : Prop :=
+  match dr with
+  | Drain k' => k' <> k
+  | DropNext => match l with e :: _ => ukey e <> k | [] => True end
+  | NoDrain => True
+  end.
+
+Lemma dr_nok_after k dr e l : dr_nok k dr (e :: l) -> dr_nok k (after_drop dr) l.
+Proof. destruct dr; cbn; auto. Qed.
+
 Lemma top_gen W evict flt k S : forall l dr,
-  ssorted l = true -> dr_ok dr l -> dr <> Some k ->
+  ssorted l = true -> dr_ok dr l -> dr_nok k dr l ->
   (forall e, In e l -> ukey e = k -> seq e < S) ->
+  (forall x, In x (filter_all flt l) -> ukey x = k -> is_weak_tomb x = false) ->
   visible (newest k S (outs W evict flt dr l)) = visible (newest k S (filter_all flt l)).
 Proof.
-  induction l as [|e rest IH]; intros dr HS OK ND HSn; [reflexivity|].
+  induction l as [|e rest IH]; intros dr HS OK ND HSn NW; [reflexivity|].
   pose proof (ssorted_tail _ _ HS) as HS'.
   assert (forall x, In x rest -> ukey x = k -> seq x < S) as HSn'
       by (intros x HI; apply HSn; now right).
-  rewrite outs_cons, filter_all_cons.
-  destruct (draining dr e) eqn:D.
-  - (* e is drained; it has the drained key, which is not k *)
+  assert (forall x, In x (filter_all flt rest) -> ukey x = k -> is_weak_tomb x = false) as NW'
+      by (intros x HI; apply NW; now apply filter_all_in_tail).
+  rewrite outs_cons. rewrite filter_all_cons in *.
+  destruct (draining evict dr e) eqn:D.
+  - (* e is dropped by the mode; its key is not k *)
     assert (ukey e <> k) as NE.
-    { destruct dr as [k'|]; [|discriminate]. cbn [draining] in D. key_prop. congruence. }
-    rewrite (IH dr HS' (dr_ok_tail _ _ _ OK) ND HSn').
+    { destruct dr as [|k'|]; [discriminate| |exact ND].
+      apply draining_key in D. cbn in ND. congruence. }
+    rewrite (IH (after_drop dr) HS' (dr_ok_tail _ _ _ OK) (dr_nok_after _ _ _ _ ND) HSn' NW').
     destruct (fst (apply_filter flt e)) as [h|] eqn:AF; [|reflexivity].
     apply apply_filter_some in AF. destruct AF as [Ek _].
     rewrite newest_cons_nokey; [reflexivity | congruence].
   - destruct (fst (apply_filter flt e)) as [h|] eqn:AF.
-    2:{ apply IH; auto using dr_ok_none. discriminate. }
+    2:{ apply IH; cbn; auto. }
     apply apply_filter_some in AF. destruct AF as [Ek Es].
-    destruct (emit_dec_inv W evict e h rest HS Ek) as [OK' _].
+    destruct (emit_dec_inv W evict e h rest HS Ek) as (OK' & _ & DN).
     destruct (key_eq_dec (ukey e) k) as [E|NE].
     + (* the head of key k *)
       assert (newest k S (h :: filter_all flt rest) = Some h) as R.
@@ -784,48 +865,73 @@ Proof.
         rewrite Es, Ys. eapply ssorted_same_key_seq; eauto. congruence.
       * destruct (emit_dec_false W evict e h rest HS Ek B) as [TB Hno].
         cbn [visible]. rewrite TB.
-        rewrite newest_nokey; [reflexivity|].
-        intros x XI. destruct Hno as [Hd|Hgt].
-        -- rewrite Hd in XI, OK'. rewrite <- E, <- Ek.
+        destruct Hno as [[Hd Hev]|[Hgt|[_ Hw]]].
+        -- rewrite newest_nokey; [reflexivity|]. intros x XI.
+           rewrite Hd in XI, OK'. subst evict. rewrite <- E, <- Ek.
            eapply drain_no_key; eauto.
-        -- destruct (subik_in _ _ _ (outs_subik W evict flt rest _) XI) as (y & YI & Yk & _).
+        -- rewrite newest_nokey; [reflexivity|]. intros x XI.
+           destruct (subik_in _ _ _ (outs_subik W evict flt rest _) XI) as (y & YI & Yk & _).
            specialize (Hgt y YI). intros Xk. rewrite <- Yk, Xk, Ek, E in Hgt.
            now apply key_lt_irrefl in Hgt.
+        -- exfalso. rewrite (NW h) in Hw; [discriminate | now left | congruence].
     + (* a head of another key *)
       assert (ukey h <> k) as NEh by congruence.
       rewrite (newest_cons_nokey k S h (filter_all flt rest) NEh).
       rewrite <- (IH (snd (emit_dec W evict h rest))); auto.
       * unfold olist. destruct (fst (emit_dec W evict h rest)); cbn [app]; [|reflexivity].
         rewrite newest_cons_nokey; auto.
-      * destruct (emit_dec_dr W evict h rest) as [-> | ->]; [discriminate|]. congruence.
+      * destruct (emit_dec_dr W evict h rest) as [Hd|[Hd|Hd]]; rewrite Hd; cbn; auto.
+        destruct (DN Hd) as (_ & p & r & -> & Ep & _). congruence.
 Qed.
 
-Theorem cstream_top_view : forall W evict flt l out log, ssorted l = true ->
+(** The unguarded statement is false for the repaired stream, by design: a weak tombstone
+    cancels exactly one value, so an undisciplined history (two values under one weak
+    tombstone) resurrects the older value. *)
+Lemma cstream_top_view_refuted_weak :
+  exists W evict flt l out log k S, ssorted l = true /\
+    run_stream W evict flt l = (out, log) /\
+    (forall e, In e l -> ukey e = k -> seq e < S) /\
+    visible (newest k S out) <> visible (newest k S (filter_all flt l)).
+Proof.
+  exists 1000, false, no_filter,
+    [Examples.Wt Examples.ka 3; Examples.V Examples.ka 2 [2]; Examples.V Examples.ka 1 [1]],
+    [Examples.V Examples.ka 1 [1]], [Examples.V Examples.ka 2 [2]], Examples.ka, 100.
+  split; [reflexivity|]. split; [vm_compute; reflexivity|]. split.
+  - intros e [<-|[<-|[<-|[]]]] _; reflexivity.
+  - vm_compute. discriminate.
+Qed.
+
+(** (a) true as soon as key [k] has no weak tombstone after filtering *)
+Theorem cstream_top_view_noweak : forall W evict flt l out log, ssorted l = true ->
   run_stream W evict flt l = (out, log) ->
   forall k S, (forall e, In e l -> ukey e = k -> seq e < S) ->
+  (forall e, In e (filter_all flt l) -> ukey e = k -> ty e <> WeakTomb) ->
   visible (newest k S out) = visible (newest k S (filter_all flt l)).
 Proof.
-  intros W evict flt l out log HS HR k S HSn.
+  intros W evict flt l out log HS HR k S HSn NW.
   apply run_stream_outs in HR. destruct HR as [-> _].
-  apply top_gen; auto using dr_ok_none. discriminate.
+  apply top_gen; cbn; auto.
+  intros x HI Hk. specialize (NW x HI Hk). unfold is_weak_tomb.
+  destruct (ty x); try reflexivity. congruence.
 Qed.
 
 Corollary cstream_top_view_nofilter : forall W evict l out log, ssorted l = true ->
   run_stream W evict no_filter l = (out, log) ->
   forall k S, (forall e, In e l -> ukey e = k -> seq e < S) ->
+  (forall e, In e l -> ukey e = k -> ty e <> WeakTomb) ->
   visible (newest k S out) = visible (newest k S l).
 Proof.
-  intros W evict l out log HS HR k S HSn.
-  rewrite (cstream_top_view _ _ _ _ _ _ HS HR k S HSn), filter_all_no_filter. reflexivity.
+  intros W evict l out log HS HR k S HSn NW.
+  rewrite (cstream_top_view_noweak _ _ _ _ _ _ HS HR k S HSn); rewrite filter_all_no_filter; auto.
 Qed.
 
-(** instances: weak tombstone over an expired value (both vanish, both sides read None);
+(** instances: strong tombstone over an expired value under eviction (both vanish);
     filter Drop on the newest entry (the older version resurfaces on both sides);
     filter Replace-by-tombstone under eviction *)
 Example cstream_top_view_ex1 :
-  let l := [Examples.Wt Examples.ka 5; Examples.V Examples.ka 4 [1]] in
-  ssorted l = true /\ fst (run_stream 10 false no_filter l) = [] /\
-  visible (newest Examples.ka 100 (fst (run_stream 10 false no_filter l))) = None /\
+  let l := [Examples.T Examples.ka 5; Examples.V Examples.ka 4 [1]] in
+  ssorted l = true /\ fst (run_stream 10 true no_filter l) = [] /\
+  visible (newest Examples.ka 100 (fst (run_stream 10 true no_filter l))) = None /\
   visible (newest Examples.ka 100 l) = None.
 Proof. vm_compute. auto. Qed.
 
@@ -848,7 +954,7 @@ Proof. vm_compute. auto. Qed.
 (** * 5. Versions at or above the watermark (result 3) *)
 
 (** the stream only peeks one entry ahead: the output on [l1 ++ e :: l2] is an output on
-    [l1] followed by the output on [e :: l2] from some drain state satisfying the invariants *)
+    [l1] followed by the output on [e :: l2] from some mode satisfying the invariants *)
 Lemma outs_split W evict : forall l1 dr e l2,
   ssorted (l1 ++ e :: l2) = true -> drW W dr (l1 ++ e :: l2) -> dr_ok dr (l1 ++ e :: l2) ->
   exists dr1 o1,
@@ -858,12 +964,12 @@ Proof.
   induction l1 as [|x l1 IH]; intros dr e l2 HS DW OK.
   - exists dr, []. cbn [app]. repeat split; auto. constructor.
   - cbn [app] in *. pose proof (ssorted_tail _ _ HS) as HS'.
-    rewrite outs_cons. destruct (draining dr x).
-    + destruct (IH dr e l2 HS' (drW_tail _ _ _ _ DW) (dr_ok_tail _ _ _ OK))
+    rewrite outs_cons. destruct (draining evict dr x).
+    + destruct (IH (after_drop dr) e l2 HS' (drW_tail _ _ _ _ DW) (dr_ok_tail _ _ _ OK))
         as (dr1 & o1 & E & A & B & C).
       exists dr1, o1. rewrite E. repeat split; auto. now apply subseq_skip.
     + rewrite apply_filter_no_filter. cbn [fst].
-      destruct (emit_dec_inv W evict x x _ HS eq_refl) as [OK' DW'].
+      destruct (emit_dec_inv W evict x x _ HS eq_refl) as (OK' & DW' & _).
       destruct (IH _ e l2 HS' DW' OK') as (dr1 & o1 & E & A & B & C).
       exists dr1, (olist (fst (emit_dec W evict x (l1 ++ e :: l2))) x ++ o1).
       rewrite E, app_assoc. repeat split; auto.
@@ -871,40 +977,57 @@ Proof.
         [now apply subseq_keep | now apply subseq_skip].
 Qed.
 
-Lemma nodrain_above_W W dr e l : drW W dr (e :: l) -> W <= seq e -> draining dr e = false.
+Lemma nodrain_above_W W evict dr e l :
+  drW W dr (e :: l) -> W <= seq e -> draining evict dr e = false.
 Proof.
-  intros DW HW. destruct dr as [k'|]; [|reflexivity]. cbn [draining].
-  destruct (key_eqb (ukey e) k') eqn:K; [|reflexivity]. key_prop.
-  specialize (DW k' eq_refl e (or_introl eq_refl) K). lia.
+  intros DW HW. destruct dr as [|k'|]; [reflexivity| |].
+  - destruct (draining evict (Drain k') e) eqn:D; [|reflexivity].
+    apply draining_key in D. specialize (DW e (or_introl eq_refl) D). lia.
+  - cbn in DW. lia.
 Qed.
 
 (** an entry at or above the watermark always becomes a head; [emit_dec] then decides *)
 Lemma mvcc_gen W evict l1 e l2 :
   ssorted (l1 ++ e :: l2) = true -> W <= seq e ->
-  (fst (emit_dec W evict e l2) = true -> In e (outs W evict no_filter None (l1 ++ e :: l2))) /\
-  (fst (emit_dec W evict e l2) = false ->
-   forall h, In h (outs W evict no_filter None (l1 ++ e :: l2)) -> ukey h = ukey e ->
-             seq e < seq h).
+  let out := outs W evict no_filter NoDrain (l1 ++ e :: l2) in
+  (fst (emit_dec W evict e l2) = true -> In e out) /\
+  (fst (emit_dec W evict e l2) = false -> snd (emit_dec W evict e l2) <> DropNext ->
+   forall h, In h out -> ukey h = ukey e -> seq e < seq h) /\
+  (snd (emit_dec W evict e l2) = DropNext ->
+   exists p l3, l2 = p :: l3 /\ ukey p = ukey e /\
+     forall h, In h out -> ukey h = ukey e -> seq e < seq h \/ seq h < seq p).
 Proof.
-  intros HS HW.
-  destruct (outs_split W evict l1 None e l2 HS (drW_none _ _) (dr_ok_none _))
-    as (dr1 & o1 & E & DW1 & OK1 & SUB).
-  rewrite E, outs_cons, (nodrain_above_W _ _ _ _ DW1 HW), apply_filter_no_filter. cbn [fst].
+  intros HS HW out. subst out.
+  destruct (outs_split W evict l1 NoDrain e l2 HS I I) as (dr1 & o1 & E & DW1 & OK1 & SUB).
+  rewrite E, outs_cons, (nodrain_above_W _ _ _ _ _ DW1 HW), apply_filter_no_filter. cbn [fst].
   pose proof (ssorted_app_r _ _ HS) as HS2.
-  split; intros B; rewrite B; unfold olist.
-  - apply in_or_app. right. now left.
-  - cbn [app]. intros h HI Hk. apply in_app_or in HI. destruct HI as [HI|HI].
-    + apply (subseq_incl _ _ SUB) in HI.
-      assert (ikey_ltb h e = true) as L by (eapply ssorted_app_lt; eauto; now left).
-      apply ikey_ltb_spec in L. destruct L as [L|[_ L]]; [|exact L].
-      rewrite Hk in L. now apply key_lt_irrefl in L.
-    + exfalso. destruct (emit_dec_false W evict e e l2 HS2 eq_refl B) as [_ [Hd|Hgt]].
-      * destruct (emit_dec_inv W evict e e l2 HS2 eq_refl) as [OK' _].
-        rewrite Hd in HI, OK'.
-        eapply (drain_no_key W evict no_filter (ukey e) l2); eauto.
-        eapply ssorted_tail; eauto.
-      * destruct (subik_in _ _ _ (outs_subik W evict no_filter l2 _) HI) as (y & YI & Yk & _).
-        specialize (Hgt y YI). rewrite <- Yk, Hk in Hgt. now apply key_lt_irrefl in Hgt.
+  assert (forall h, In h o1 -> ukey h = ukey e -> seq e < seq h) as Ho1.
+  { intros h HI Hk. apply (subseq_incl _ _ SUB) in HI.
+    assert (ikey_ltb h e = true) as L by (eapply ssorted_app_lt; eauto; now left).
+    apply ikey_ltb_spec in L. destruct L as [L|[_ L]]; [|exact L].
+    rewrite Hk in L. now apply key_lt_irrefl in L. }
+  destruct (emit_dec_inv W evict e e l2 HS2 eq_refl) as (OK' & _ & DN).
+  split; [|split].
+  - intros B. rewrite B. apply in_or_app. right. now left.
+  - intros B NDN. rewrite B. unfold olist. cbn [app]. intros h HI Hk.
+    apply in_app_or in HI. destruct HI as [HI|HI]; [auto|]. exfalso.
+    destruct (emit_dec_false W evict e e l2 HS2 eq_refl B) as [_ [[Hd Hev]|[Hgt|[Hd _]]]].
+    + rewrite Hd in HI, OK'. subst evict.
+      eapply (drain_no_key W no_filter (ukey e) l2); eauto. eapply ssorted_tail; eauto.
+    + destruct (subik_in _ _ _ (outs_subik W evict no_filter l2 _) HI) as (y & YI & Yk & _).
+      specialize (Hgt y YI). rewrite <- Yk, Hk in Hgt. now apply key_lt_irrefl in Hgt.
+    + contradiction.
+  - intros Hd. destruct (DN Hd) as (_ & p & l3 & -> & Ep & _ & _).
+    exists p, l3. split; [reflexivity|]. split; [exact Ep|].
+    assert (fst (emit_dec W evict e (p :: l3)) = false) as B.
+    { revert Hd. unfold emit_dec. destruct (key_ltb (ukey e) (ukey p)); [discriminate|].
+      destruct (seq p <? W); [|discriminate].
+      destruct (is_strong_tomb e && evict); [discriminate|].
+      destruct (is_value p && is_weak_tomb e); [reflexivity | discriminate]. }
+    rewrite B, Hd. unfold olist. cbn [app]. rewrite outs_cons. cbn [draining after_drop].
+    intros h HI Hk. apply in_app_or in HI. destruct HI as [HI|HI]; [left; auto|]. right.
+    destruct (subik_in _ _ _ (outs_subik W evict no_filter l3 _) HI) as (y & YI & Yk & Ys).
+    rewrite Ys. eapply ssorted_same_key_seq; [eapply ssorted_tail; eauto | exact YI | congruence].
 Qed.
 
 Lemma newest_of_in k S l out e :
@@ -956,85 +1079,142 @@ Proof.
     { eapply key_lt_le_trans; [exact KL|].
       eapply ssorted_key_le; [eapply ssorted_tail; eauto | exact HI]. }
     rewrite E in L. now apply key_lt_irrefl in L.
-  - key_prop.
-    assert (ukey p = ukey e) as Ep.
-    { apply key_le_antisym; [exact KL|]. eapply ssorted_key_le; eauto. right; now left. }
+  - pose proof (ssorted_peek_same_key e p r e HS2 eq_refl KL) as Ep.
     apply newest_head; auto.
     + eapply ssorted_same_key_seq; eauto. now left.
     + intros x XI Xk. eapply ssorted_same_key_seq; [eapply ssorted_tail; eauto| |]; auto.
       congruence.
 Qed.
 
-(** when a tombstone at or above the watermark is removed: it is the oldest version of
-    its key and [evict] is set, or the next older version [p] is below the watermark and
-    (it is a strong tombstone and [evict] is set, or it is weak and [p] is a Value) *)
-Definition tomb_dropped (W : N) (evict : bool) (e : entry) (l : list entry) : bool :=
-  match newest (ukey e) (seq e) l with
-  | None => evict
-  | Some p => (seq p <? W) && ((is_strong_tomb e && evict) || (is_value p && is_weak_tomb e))
-  end.
-
-Lemma tomb_dropped_emit_dec W evict l1 e l2 :
-  ssorted (l1 ++ e :: l2) = true -> is_tomb e = true ->
-  tomb_dropped W evict e (l1 ++ e :: l2) = negb (fst (emit_dec W evict e l2)).
+Lemma newest_same_matches k S S' o :
+  (forall x, In x o -> matches k S x = matches k S' x) -> newest k S o = newest k S' o.
 Proof.
-  intros HS TB. unfold tomb_dropped, emit_dec. rewrite (newest_succ _ _ _ HS).
-  destruct l2 as [|p r].
-  - cbn [fst]. rewrite TB, negb_involutive. reflexivity.
-  - destruct (key_ltb (ukey e) (ukey p)).
-    + cbn [fst]. rewrite TB, negb_involutive. reflexivity.
-    + destruct (seq p <? W); cbn [fst andb]; [now rewrite negb_involutive | reflexivity].
+  induction o as [|x o IH]; intros H; [reflexivity|].
+  cbn [newest]. rewrite (H x (or_introl eq_refl)), IH; [reflexivity|].
+  intros y Hy. apply H. now right.
 Qed.
+
+(** What a snapshot [S] reads after the stream when the newest version [e] visible at [S]
+    is a tombstone at or above the watermark.  With [p] the next older version of the key:
+    - [e] is the oldest version: removed iff [evict];
+    - [p] is below the watermark and [e] is a strong tombstone and [evict]: [e] and
+      everything older is removed;
+    - [p] is below the watermark, [e] is weak and [p] is a Value: exactly the pair [e], [p]
+      is removed, the snapshot then reads whatever the stream left of the versions
+      older than [p];
+    - otherwise [e] is emitted. *)
+Definition tomb_fate (W : N) (evict : bool) (e : entry) (l out : list entry) : option entry :=
+  match newest (ukey e) (seq e) l with
+  | None => if evict then None else Some e
+  | Some p =>
+      if seq p <? W then
+        if is_strong_tomb e && evict then None
+        else if is_value p && is_weak_tomb e then newest (ukey e) (seq p) out
+        else Some e
+      else Some e
+  end.
 
 Theorem cstream_mvcc_tomb : forall W evict l out log, ssorted l = true ->
   run_stream W evict no_filter l = (out, log) ->
   forall k S e, newest k S l = Some e -> W <= seq e -> is_tomb e = true ->
-  newest k S out = if tomb_dropped W evict e l then None else Some e.
+  newest k S out = tomb_fate W evict e l out.
 Proof.
   intros W evict l out log HS HR k S e HN HW TB.
   pose proof (cstream_out_subseq _ _ _ _ _ HR) as SUB.
   apply run_stream_outs in HR. destruct HR as [-> _].
   destruct (newest_some _ _ _ _ HN) as [HI HM].
+  pose proof HM as HM'. apply matches_iff in HM'. destruct HM' as [Ek ES].
   apply in_split in HI. destruct HI as (l1 & l2 & ->).
-  rewrite (tomb_dropped_emit_dec W evict l1 e l2 HS TB).
-  destruct (mvcc_gen W evict l1 e l2 HS HW) as [Hem Hdr].
-  destruct (fst (emit_dec W evict e l2)); cbn [negb].
-  - eapply newest_of_in; eauto.
-  - apply newest_none. intros h HI. destruct (matches k S h) eqn:M; [|reflexivity]. exfalso.
+  destruct (mvcc_gen W evict l1 e l2 HS HW) as (Hem & Hdr & Hdn).
+  set (out := outs W evict no_filter NoDrain (l1 ++ e :: l2)) in *.
+  (* the three outcomes *)
+  assert (fst (emit_dec W evict e l2) = true -> newest k S out = Some e) as A.
+  { intros B. eapply newest_of_in; eauto. }
+  assert (fst (emit_dec W evict e l2) = false -> snd (emit_dec W evict e l2) <> DropNext ->
+          newest k S out = None) as B.
+  { intros B NDN. apply newest_none. intros h HI.
+    destruct (matches k S h) eqn:M; [|reflexivity]. exfalso.
     pose proof (newest_max _ _ _ _ HN h (subseq_incl _ _ SUB h HI) M) as LE.
-    apply matches_iff in M, HM. destruct M as [Mk _], HM as [Ek _].
-    specialize (Hdr eq_refl h HI). rewrite Mk, Ek in Hdr. specialize (Hdr eq_refl). lia.
+    apply matches_iff in M. destruct M as [Mk _].
+    specialize (Hdr B NDN h HI). rewrite Mk, Ek in Hdr. specialize (Hdr eq_refl). lia. }
+  assert (snd (emit_dec W evict e l2) = DropNext ->
+          exists p l3, l2 = p :: l3 /\ newest k S out = newest k (seq p) out) as C.
+  { intros Hd. destruct (Hdn Hd) as (p & l3 & -> & Ep & Hh). exists p, l3.
+    split; [reflexivity|]. apply newest_same_matches. intros x HI.
+    assert (seq p < seq e) as Lp.
+    { eapply ssorted_same_key_seq; [eapply ssorted_app_r; eauto | now left | exact Ep]. }
+    unfold matches. destruct (key_eqb (ukey x) k) eqn:K; [|reflexivity]. cbn [andb].
+    key_prop. specialize (Hh x HI). rewrite K, Ek in Hh. destruct (Hh eq_refl) as [L|L].
+    - assert (seq x <? S = false) as ->.
+      { apply N.ltb_ge. destruct (N.lt_ge_cases (seq x) S) as [LT|GE]; [|exact GE]. exfalso.
+        assert (matches k S x = true) as M by (apply matches_iff; auto).
+        pose proof (newest_max _ _ _ _ HN x (subseq_incl _ _ SUB x HI) M). lia. }
+      symmetry. apply N.ltb_ge. lia.
+    - assert (seq x <? S = true) as -> by (apply N.ltb_lt; lia).
+      symmetry. apply N.ltb_lt. lia. }
+  clearbody out. unfold tomb_fate. rewrite <- Ek in A, B, C |- *.
+  rewrite (newest_succ _ _ _ HS).
+  unfold emit_dec in A, B, C. destruct l2 as [|p r].
+  - cbn [fst snd] in *. rewrite TB in *. destruct evict; cbn in *.
+    + apply B; [reflexivity | discriminate].
+    + apply A; reflexivity.
+  - destruct (key_ltb (ukey e) (ukey p)).
+    + cbn [fst snd] in *. rewrite TB in *. destruct evict; cbn in *.
+      * apply B; [reflexivity | discriminate].
+      * apply A; reflexivity.
+    + destruct (seq p <? W); [|apply A; reflexivity].
+      destruct (is_strong_tomb e && evict).
+      * apply B; [reflexivity | discriminate].
+      * destruct (is_value p && is_weak_tomb e); [|apply A; reflexivity].
+        destruct (C eq_refl) as (p' & l3 & Ep' & R). injection Ep' as <- <-. exact R.
 Qed.
 
-(** in particular a tombstone at or above the watermark keeps hiding its key at every
-    snapshot at which it was the newest version *)
+(** a strong tombstone (or any tombstone outside the weak-pair rule) at or above the
+    watermark keeps hiding its key at every snapshot at which it was the newest version *)
 Corollary cstream_mvcc_tomb_hidden : forall W evict l out log, ssorted l = true ->
   run_stream W evict no_filter l = (out, log) ->
   forall k S e, newest k S l = Some e -> W <= seq e -> is_tomb e = true ->
+  is_weak_tomb e = false ->
   visible (newest k S out) = None.
 Proof.
-  intros W evict l out log HS HR k S e HN HW TB.
-  rewrite (cstream_mvcc_tomb _ _ _ _ _ HS HR k S e HN HW TB).
-  destruct (tomb_dropped W evict e l); cbn [visible]; [reflexivity | now rewrite TB].
+  intros W evict l out log HS HR k S e HN HW TB NW.
+  rewrite (cstream_mvcc_tomb _ _ _ _ _ HS HR k S e HN HW TB). unfold tomb_fate.
+  destruct (newest (ukey e) (seq e) l) as [p|].
+  - rewrite NW, andb_false_r.
+    destruct (seq p <? W); [destruct (is_strong_tomb e && evict)|]; cbn [visible];
+      rewrite ?TB; reflexivity.
+  - destruct evict; cbn [visible]; rewrite ?TB; reflexivity.
 Qed.
 
-(** both together: if the version visible at [S] is at or above the watermark, the read
-    at [S] is unchanged (values and deletions alike) *)
+(** both together: if the version visible at [S] is at or above the watermark and is not
+    a weak tombstone, the read at [S] is unchanged (values and deletions alike) *)
 Corollary cstream_mvcc_view : forall W evict l out log, ssorted l = true ->
   run_stream W evict no_filter l = (out, log) ->
-  forall k S e, newest k S l = Some e -> W <= seq e ->
+  forall k S e, newest k S l = Some e -> W <= seq e -> is_weak_tomb e = false ->
   visible (newest k S out) = visible (newest k S l).
 Proof.
-  intros W evict l out log HS HR k S e HN HW. rewrite HN.
+  intros W evict l out log HS HR k S e HN HW NW. rewrite HN.
   destruct (is_tomb e) eqn:TB.
-  - rewrite (cstream_mvcc_tomb_hidden _ _ _ _ _ HS HR k S e HN HW TB).
+  - rewrite (cstream_mvcc_tomb_hidden _ _ _ _ _ HS HR k S e HN HW TB NW).
     cbn [visible]. now rewrite TB.
   - now rewrite (cstream_mvcc _ _ _ _ _ HS HR k S e HN HW TB).
 Qed.
 
+(** without the guard it fails (again only for undisciplined weak deletes): the pair
+    [W@10, V@3] goes, [V@2] resurfaces *)
+Lemma cstream_mvcc_view_refuted_weak :
+  exists W evict l k S e, ssorted l = true /\ newest k S l = Some e /\ W <= seq e /\
+    visible (newest k S (fst (run_stream W evict no_filter l))) <> visible (newest k S l).
+Proof.
+  exists 5, false,
+    [Examples.Wt Examples.ka 10; Examples.V Examples.ka 3 [3]; Examples.V Examples.ka 2 [2]],
+    Examples.ka, 11, (Examples.Wt Examples.ka 10).
+  vm_compute. repeat split; discriminate.
+Qed.
+
 (** NOT true for every snapshot [S >= W]: the newest version below the watermark is
     dropped as soon as any newer version exists, even one the snapshot cannot see
-    (stream.rs:191 tests only [peeked.seqno < gc_seqno_threshold]) *)
+    (stream.rs, [next]: only [peeked.seqno < gc_seqno_threshold] is tested) *)
 Lemma cstream_snapshot_above_W_refuted :
   exists W evict l k S, ssorted l = true /\ W <= S /\
     visible (newest k S (fst (run_stream W evict no_filter l))) <> visible (newest k S l).
@@ -1051,22 +1231,23 @@ Example cstream_mvcc_ex :
   = ([Examples.T Examples.ka 10; Examples.V Examples.ka 8 [1]], [Examples.V Examples.ka 3 [0]]).
 Proof. vm_compute. auto. Qed.
 
-(** strong tombstone at the watermark, evict, successor below the watermark: dropped with
-    everything older; weak tombstone over an expired Value: dropped with it; weak
-    tombstone over an expired strong tombstone: emitted *)
+(** strong tombstone, evict, successor below the watermark: dropped with everything older;
+    weak tombstone over an expired Value: exactly the pair is dropped (the older strong
+    tombstone below becomes visible to the snapshot); weak tombstone over an expired
+    strong tombstone: emitted *)
 Example cstream_mvcc_tomb_ex :
   let ka := Examples.ka in
   let l1 := [Examples.T ka 10; Examples.V ka 3 [0]] in
-  let l2 := [Examples.Wt ka 10; Examples.V ka 3 [0]] in
+  let l2 := [Examples.Wt ka 10; Examples.V ka 3 [0]; Examples.T ka 2] in
   let l3 := [Examples.Wt ka 10; Examples.T ka 3] in
-  (ssorted l1 = true /\ tomb_dropped 5 true (Examples.T ka 10) l1 = true /\
-   fst (run_stream 5 true no_filter l1) = []) /\
-  (tomb_dropped 5 false (Examples.T ka 10) l1 = false /\
-   fst (run_stream 5 false no_filter l1) = [Examples.T ka 10]) /\
-  (ssorted l2 = true /\ tomb_dropped 5 false (Examples.Wt ka 10) l2 = true /\
-   fst (run_stream 5 false no_filter l2) = []) /\
-  (ssorted l3 = true /\ tomb_dropped 5 false (Examples.Wt ka 10) l3 = false /\
-   fst (run_stream 5 false no_filter l3) = [Examples.Wt ka 10]).
+  (ssorted l1 = true /\ fst (run_stream 5 true no_filter l1) = [] /\
+   tomb_fate 5 true (Examples.T ka 10) l1 [] = None) /\
+  (fst (run_stream 5 false no_filter l1) = [Examples.T ka 10] /\
+   tomb_fate 5 false (Examples.T ka 10) l1 [Examples.T ka 10] = Some (Examples.T ka 10)) /\
+  (ssorted l2 = true /\ fst (run_stream 5 false no_filter l2) = [Examples.T ka 2] /\
+   tomb_fate 5 false (Examples.Wt ka 10) l2 [Examples.T ka 2] = Some (Examples.T ka 2)) /\
+  (ssorted l3 = true /\ fst (run_stream 5 false no_filter l3) = [Examples.Wt ka 10] /\
+   tomb_fate 5 false (Examples.Wt ka 10) l3 [Examples.Wt ka 10] = Some (Examples.Wt ka 10)).
 Proof. vm_compute. repeat split; reflexivity. Qed.
 
 (** * 6. The filter is never consulted on a tombstone (result 5) *)
@@ -1087,7 +1268,7 @@ Proof.
   assert (forall dr', cstream W evict flt dr' rest = cstream W evict flt' dr' rest) as IH'.
   { intros dr'. apply IH. intros x HI. apply H. now right. }
   rewrite !cstream_cons. rewrite (apply_filter_ext flt flt' e) by (apply H; now left).
-  destruct (draining dr e); [now rewrite IH'|].
+  destruct (draining evict dr e); [now rewrite IH'|].
   destruct (apply_filter flt' e) as [[h|] lg]; now rewrite IH'.
 Qed.
 
@@ -1146,7 +1327,7 @@ Proof.
       - cbn [app]. now apply perm_mid.
       - eapply Forall_impl; [|exact FR]. intros h. apply is_repl_mono. intros x; now right.
       - now apply subseq_skip. }
-    destruct (draining dr e); [apply Hlogged|].
+    destruct (draining evict dr e); [apply Hlogged|].
     destruct (apply_filter_cases flt e) as [AF|[(_ & _ & AF)|(NT & t & v & Hf & AF)]];
       rewrite AF; cbn [fst snd app].
     + (* kept as is, or silently removed (then it is a tombstone) *)
@@ -1293,9 +1474,10 @@ Example cstream_log_exact_ex :
             Examples.V ka 2 [4]; Examples.T Examples.kb 5] in
   ssorted l = true /\
   run_stream 5 true flt l
-  = ([mkE ka 9 Ind [7]; Examples.V ka 8 [2]],
-     [Examples.V ka 9 [1]; Examples.V ka 3 [3]; Examples.V ka 2 [4]]).
-  (* kept = [V a 8]; log as shown; silent = [W a 7; T b 5]; repl = [Ind a 9] *)
+  = ([mkE ka 9 Ind [7]; Examples.V ka 8 [2]; Examples.V ka 2 [4]],
+     [Examples.V ka 9 [1]; Examples.V ka 3 [3]]).
+  (* kept = [V a 8; V a 2]; log as shown; silent = [W a 7; T b 5]; repl = [Ind a 9];
+     the weak tombstone W a 7 cancels exactly V a 3 *)
 Proof. vm_compute. auto. Qed.
 
 (** * 8. The merge of several sources *)
@@ -1422,26 +1604,3 @@ Example merge_sorted_ex :
      Examples.V kb 4 [2]].
 Proof. vm_compute. auto. Qed.
 
-(** * Assumptions *)
-Print Assumptions cstream_examples.
-Print Assumptions cstream_top_view.
-Print Assumptions cstream_top_view_nofilter.
-Print Assumptions cstream_mvcc.
-Print Assumptions cstream_mvcc_tomb.
-Print Assumptions cstream_mvcc_tomb_hidden.
-Print Assumptions cstream_mvcc_view.
-Print Assumptions cstream_snapshot_above_W_refuted.
-Print Assumptions cstream_out_sorted.
-Print Assumptions cstream_out_keys.
-Print Assumptions cstream_replace_keeps_seq.
-Print Assumptions cstream_out_subseq.
-Print Assumptions cstream_out_in.
-Print Assumptions cstream_log_subseq.
-Print Assumptions cstream_filter_domain.
-Print Assumptions cstream_filter_domain_in.
-Print Assumptions cstream_log_exact.
-Print Assumptions cstream_log_exact_nontomb.
-Print Assumptions cstream_log_count.
-Print Assumptions merge_sorted_perm.
-Print Assumptions merge_sorted_sorted_nodup.
-Print Assumptions merge_sorted_sorted.
